@@ -438,7 +438,7 @@ func runCheck(args []string) int {
 	raceRuns := 0
 	raceSeen := map[string]bool{}
 	// watchdog: a worker may take budget + grace
-	grace := budget + 5*time.Minute
+	grace := budget + 90*time.Second
 	for i, j := range jobs {
 		done := make(chan error, 1)
 		go func() { done <- j.cmd.Wait() }()
